@@ -376,6 +376,19 @@ class ExprMixin:
                 parts.append(x)
         return self.fstr(parts, site)
 
+    def ev_Yield(self, e, fr, st):
+        # only reached when a generator body is analysed on request (Interp.analyse_generators)
+        site = self.site_of(e, fr)
+        v = self.eval(e.value, fr, st) if e.value is not None else self.const(None)
+        self.effect("yield", site, st, fr, node=self.freeze(v, st))
+        return self.const(None, site)
+
+    def ev_YieldFrom(self, e, fr, st):
+        site = self.site_of(e, fr)
+        v = self.eval(e.value, fr, st)
+        self.effect("yield-from", site, st, fr, node=self.freeze(v, st))
+        return self.const(None, site)
+
     def ev_Slice(self, e, fr, st):
         site = self.site_of(e, fr)
         none = self.const(None)
